@@ -8,7 +8,7 @@
    the last [buckets] intervals up to [now]; [w_decisions w] is the log of accept()
    decisions.  All theorems hold for every history, of any length. *)
 From Coq Require Import List ZArith QArith Bool Lia.
-From GZ Require Import Lib.RollingWindow Lib.RollingWindowSpec C01.Model C01.Spec C01.Proofs.
+From GZ Require Import Lib.RollingWindow Lib.RollingWindowSpec C01.Model C01.Spec C01.Proofs C01.ProofsConc.
 Import ListNotations.
 Open Scope Z_scope.
 
@@ -108,7 +108,7 @@ Proof. exact accounting_run. Qed.
 Print Assumptions exact_accounting_history.
 
 (* T3  After any history containing a throttled admission, a call arriving more than
-   forcePassDuration after the latest one is admitted whatever the draw: the request runs
+   forcePassDuration after the latest one is let through whatever the draw: the request runs
    once and its result comes back. *)
 Theorem probe_guaranteed : forall cfg base cs c,
   0 < base -> times_ok (cs ++ [c]) ->
@@ -143,6 +143,56 @@ Theorem total_failure_rejects : forall cfg base cs c T,
 Proof. exact total_failure_rejects_run. Qed.
 Print Assumptions total_failure_rejects.
 
+(* T5  Concurrent calls.  Each call is a thread of three atomic actions read (history()
+   under the read lock) / decide (lastPass atomics + draw) / mark (stat.Add under the write
+   lock); [ireach cfg base calls sched] is the world after the schedule [sched] (a list of
+   (thread, clock advance >= 0)), for ANY schedule.  The log records every action. *)
+
+(* every read returns the counts of the calls recorded before it in the last [buckets]
+   intervals at its own time - possibly an older window than at decision or mark time *)
+Theorem interleaved_reads_see_recorded_window : forall cfg base calls sched pre tid t r post,
+  cfg_ok cfg -> sched_ok sched ->
+  i_log (ireach cfg base calls sched) = pre ++ EvRead tid t r :: post ->
+  let vals := window_vals cfg base (marks_of pre) t in
+  w_total r = n_total vals /\ w_accepts r = n_success vals.
+Proof. exact interleaved_read_sums. Qed.
+Print Assumptions interleaved_reads_see_recorded_window.
+
+(* T1 under every interleaving: a rejection was decided on the call's own earlier read, and
+   the calls recorded before that read satisfy the admission law in its window *)
+Theorem interleaved_reject_only_if_over : forall cfg base calls sched tid t r,
+  cfg_ok cfg -> sched_ok sched ->
+  In (EvDecide tid t r VReject) (i_log (ireach cfg base calls sched)) ->
+  exists pre t0 post,
+    i_log (ireach cfg base calls sched) = pre ++ EvRead tid t0 r :: post /\
+    In (EvDecide tid t r VReject) post /\
+    let vals := window_vals cfg base (marks_of pre) t0 in
+    over cfg (n_total vals) (n_success vals).
+Proof. exact interleaved_reject_over. Qed.
+Print Assumptions interleaved_reject_only_if_over.
+
+(* T2 under every interleaving: a call never marks twice; once it has returned it has marked
+   exactly once, with drop / success / failure as fixed by its verdict, entry point and
+   outcome, and returned the matching observation (request and fallback run counts, error
+   class) - or nothing at all for a done context; and at all times the window sums are the
+   counts of the marks logged in the last [buckets] intervals *)
+Theorem interleaved_exact_accounting : forall cfg base calls sched tid,
+  cfg_ok cfg -> sched_ok sched -> (tid < length calls)%nat ->
+  let w := ireach cfg base calls sched in
+  let c := nth tid calls dummy_call in
+  (length (marks_by tid (i_log w)) <= 1)%nat /\
+  (forall ro o, nth tid (i_threads w) TInit = TDone ro o ->
+     (ro = None /\ k_ctx c = CDone /\ o = ctx_obs /\ marks_by tid (i_log w) = []) \/
+     (exists r t v tm, ro = Some r /\ In (EvDecide tid t r v) (i_log w) /\
+        marks_by tid (i_log w) = [EvMark tid tm (mark_value c v)] /\ o = call_obs c v)) /\
+  (forall now, i_clock w <= now ->
+     let h := history (swin (i_st w)) now in
+     let vals := window_vals cfg base (marks_of (i_log w)) now in
+     w_total h = n_total vals /\ w_accepts h = n_success vals /\
+     sum_fail (swin (i_st w)) now = n_fail vals /\ sum_drop (swin (i_st w)) now = n_drop vals).
+Proof. exact interleaved_accounting. Qed.
+Print Assumptions interleaved_exact_accounting.
+
 (* ---- non-vacuity: concrete histories meeting the hypotheses (today's constants) *)
 
 Definition ex_base : Z := 1000000000000.
@@ -169,8 +219,9 @@ Example ex_probe :
   /\ o_verdict (snd (step cfg_default (reach cfg_default ex_base ex_probe_pre) (ex_fail 1000000000 0))) = Some VReject.
 Proof. vm_compute. repeat split; reflexivity. Qed.
 
-(* 100 failures 10 ms apart (draw 0.999 keeps none... the first six are admitted, the rest pass
-   or not); then total failure in the window: a draw of 0.94 is rejected *)
+(* 100 failures 10 ms apart with draw 0: the first six are let through, the rest are rejected;
+   then total failure in the window (100 recorded calls, no success, lastPass never set):
+   a call drawing 0.94 is rejected *)
 Definition ex_tf_pre : list call := repeat (mkCall EDo CNone OErrU 10000000 0 0) 100.
 Example ex_total_failure :
   let w := reach cfg_default ex_base ex_tf_pre in
@@ -178,3 +229,23 @@ Example ex_total_failure :
   n_success vals = 0 /\ n_total vals = 100 /\ last_throttled (w_decisions w) = 0 /\
   o_res (snd (step cfg_default w (mkCall EDo CNone OOk 0 0 (94 # 100)))) = RUnavailable.
 Proof. vm_compute. repeat split; reflexivity. Qed.
+
+(* two concurrent calls after six failures: both read the window (6 failures) before either
+   marks; both are rejected on that same, by then older, window; both mark a drop *)
+Definition ex_conc_calls : list call :=
+  repeat (mkCall EDo CNone OErrU 0 0 (999 # 1000)) 6 ++ repeat (mkCall EDoFb CNone OOk 0 0 0) 2.
+Definition ex_conc_sched : list (nat * Z) :=
+  flat_map (fun i => [(i, 1000); (i, 0); (i, 0)]) (seq 0 6)
+  ++ [(6%nat, 5); (7%nat, 5); (6%nat, 0); (7%nat, 0); (7%nat, 1); (6%nat, 1)].
+Example ex_conc :
+  let w := ireach cfg_default ex_base ex_conc_calls ex_conc_sched in
+  sched_ok ex_conc_sched /\
+  nth 6 (i_threads w) TInit = TDone (Some (mkW 0 6 1 0)) (mkObs RFallback 0 1 (Some VReject)) /\
+  nth 7 (i_threads w) TInit = TDone (Some (mkW 0 6 1 0)) (mkObs RFallback 0 1 (Some VReject)) /\
+  w_total (history (swin (i_st w)) (i_clock w)) = 8.
+Proof.
+  cbn zeta. split.
+  - unfold sched_ok. apply Forall_forall. intros a Ha. vm_compute in Ha.
+    repeat (destruct Ha as [Ha|Ha]; [subst a; cbn; lia|]). destruct Ha.
+  - vm_compute. repeat split; reflexivity.
+Qed.
